@@ -2,6 +2,7 @@ INIT ObsInit
 NEXT ObsNext
 CONSTANT HdrSets <- ObsHdrSets
 CONSTANT Methods <- ObsMethods
+CONSTANT SeqDom <- ObsSeqDom
 CONSTANT Schemes <- ObsSchemes
 INVARIANT WellFormed
 INVARIANT ObsC13
